@@ -115,6 +115,14 @@ func injections(r *rand.Rand, base vlib.PolicySpec, t *vlib.Target, ts []*vlib.T
 				add("conditional-and-unconditional", fmt.Sprintf("group %d: names_with_args[%d] also in names", gi, wi), s)
 			}
 		}
+		if len(g.Names) >= 1 {
+			// a name of the group listed once more in names_with_args, with a condition list that is empty
+			for k, empty := range [][]vlib.CondSpec{nil, {}} {
+				s := cloneSpec(base)
+				s.Groups[gi].With = append(s.Groups[gi].With, vlib.EntrySpec{Name: g.Names[(gi+k)%len(g.Names)], Conds: empty})
+				add("conditional-and-unconditional", fmt.Sprintf("group %d: a name of names also in names_with_args with an empty condition list (variant %d)", gi, k), s)
+			}
+		}
 		// argument index above 5, unknown operation: at each condition position
 		for wi, e := range g.With {
 			if len(g.With) > 8 && wi > 1 && wi < len(g.With)-2 && wi != len(g.With)/2 {
